@@ -25,9 +25,20 @@ def _is_assert_fail_block(fn, bid, depth=0):
     return False
 
 
+# standard-library operations that are not declared noexcept but cannot throw for the argument types used here (reason)
+NOTHROW_STD = ('std::move_iterator<',        # wraps a raw pointer: construction, base(), ++, * cannot throw
+               'std::make_move_iterator', 'std::initializer_list<')
+
+
 def may_throw(t):
     """a call / construct / new / throw term may raise"""
     k = t.get('k')
+    if k == 'construct' and str(t.get('type', '')).startswith(NOTHROW_STD) and '*>' in str(t.get('type', '')):
+        return False
+    if k == 'call' and str(t.get('cls', '')).startswith(NOTHROW_STD) and '*>' in str(t.get('cls', '')):
+        return False
+    if k == 'call' and str(t.get('callee', '')).startswith('std::make_move_iterator'):
+        return False
     if k == 'throw':
         return True
     if k == 'call':
